@@ -324,9 +324,14 @@ impl BuildSpec {
     }
 
     pub fn to_json(&self) -> Value {
+        // very long texts are described, not repeated
+        let long = |t: &Option<String>| match t {
+            Some(x) if x.len() > 200_000 => json!({"chars": x.chars().count(), "bytes": x.len(), "first": x.chars().take(12).collect::<String>(), "sha256": hex::encode(<sha2::Sha256 as sha2::Digest>::digest(x.as_bytes()))}),
+            other => json!(other),
+        };
         json!({
             "name": self.name, "version": self.version, "license": self.license, "arch": self.arch, "summary": self.summary,
-            "release": self.release, "epoch": self.epoch, "description": self.description, "vendor": self.vendor,
+            "release": self.release, "epoch": self.epoch, "description": long(&self.description), "vendor": self.vendor,
             "packager": self.packager, "group": self.group, "url": self.url, "vcs": self.vcs, "cookie": self.cookie,
             "build_host": self.build_host,
             "scripts": self.scripts.iter().map(|(k, s)| (k.to_string(), json!({"script": s.script, "flags": s.flags, "prog": s.prog}))).collect::<BTreeMap<_, _>>(),
@@ -496,7 +501,7 @@ impl BuildSpec {
     }
 }
 
-fn script_call(b: PackageBuilder, kind: &str, sc: Scriptlet) -> PackageBuilder {
+pub fn script_call(b: PackageBuilder, kind: &str, sc: Scriptlet) -> PackageBuilder {
     match kind {
         "pre_install" => b.pre_install_script(sc),
         "post_install" => b.post_install_script(sc),
